@@ -154,7 +154,8 @@ def plan_mg(tier, seed, props):
 
 def plan_mp(tier, seed, props):
     q = tier == "quick"
-    return [dict(family="mergedocs", opts=NONE, frac=0.35 if q else 1.0, void=False, nf=False)]
+    return [dict(family="mergedocs", opts=NONE, frac=0.35 if q else 1.0, void=False, nf=False),
+            dict(family="mergedeep", opts=NONE, frac=0.6 if q else 1.0, void=False, nf=False)]
 
 
 def followup_vary(sc, jdv, st, tr, tag, seed):
